@@ -286,6 +286,9 @@ func c09Check(c c09Case) (out kit.Outcome) {
 	M := float64(c.ms())
 	A := ms(anchor)
 	const early, slack = 60.0, 1000.0
+	// a kill at a deadline: the announced deadline is held to 150 ms, so is the kill that enforces it (plus what the host's
+	// own wake-up lag explains)
+	lateTol := 150 + 2*tr.MaxLagMs
 	type pinfo struct {
 		name     string
 		beh      string
@@ -388,7 +391,7 @@ func c09Check(c c09Case) (out kit.Outcome) {
 					out.Violate("C09/runtime-not-killed", "runtime %s ignores TERM and was never killed", name)
 					return out
 				}
-				if ms(p.kill) > A+0.3*M+slack {
+				if ms(p.kill) > A+0.3*M+lateTol {
 					out.Violate("C09/runtime-killed-late", "runtime %s ignoring TERM was killed %.0f ms after the shutdown began (30%% of allowance = %.0f ms)", name, ms(p.kill)-A, 0.3*M)
 					return out
 				}
@@ -434,7 +437,7 @@ func c09Check(c c09Case) (out kit.Outcome) {
 				out.Violate("C09/ext-killed-early", "SHUTDOWN-subscribed extension %s (%s) was killed %.0f ms after the shutdown began, before its deadline of %.0f ms", name, p.beh, ms(p.kill)-A, M)
 				return out
 			}
-			if ms(p.kill) > A+M+slack {
+			if ms(p.kill) > A+M+lateTol {
 				out.Violate("C09/ext-killed-late", "extension %s (%s) was killed %.0f ms after the shutdown began; deadline %.0f ms", name, p.beh, ms(p.kill)-A, M)
 				return out
 			}
